@@ -10,6 +10,12 @@ def Raise.exitFailureCtor : Raise → Bool
   | .unsupported | .readError | .fmtError => true
   | _ => false
 
+/-- for `Error("fmt {}", n)` with a single int argument: is the resulting solve code (n if n ≥ 100, else 500)
+in the failure class? -/
+def Raise.intArgCodeOK : Raise → Bool
+  | .fmtIntArg n => decide (n < 100 ∨ (500 ≤ n ∧ n ≤ 999))
+  | _ => true
+
 /-- an option token that does not throw -/
 def Opt.clean : Opt → Bool
   | .wantsol _ => true
@@ -85,6 +91,7 @@ theorem reportCode_of_raise (r : Raise) :
     r.toExn.reportCode =
       match r with
       | .withCode c => if c ≥ 100 then c else 500
+      | .fmtIntArg n => if n ≥ 100 then n else 500
       | .infeas => 200
       | .solCheck => 150
       | .wrappedInfeas => 200
@@ -241,6 +248,7 @@ def Regular (sc : Scenario) (e : Ending) : Prop :=
   | .finished a w => wantsFile a w = true                                   -- standalone
   | .raised a w st r =>
       r ≠ .foreign ∧                                                          -- foreign
+      r.intArgCodeOK = true ∧                                                 -- fmtintcode
       (st = .options → sc.dims = ⟨0, 0⟩) ∧                                    -- optdims
       (st = .populate → sc.partialDims = sc.dims) ∧                               -- hdrdims
       (st.handlerAvailable = true → wantsFile a w = true) ∧                   -- standalone
